@@ -43,6 +43,7 @@ def run(ctx, rep):
     check_fake_exponential(fx, rep)
     check_excess(fx, rep)
     check_arith(fx, rep)
+    check_env_setter(fx, rep)
     rep.assume('u128 intermediate width is the implementation\'s choice; values that do not fit are the subject of R5')
 
 
@@ -237,3 +238,32 @@ def check_arith(fx, rep):
                 rep.violation('R5-no-silent-wrap', key,
                               'fake_exponential performs the source-level `%s` in u128, which wraps in release builds: for numerator near 2^64 the second Taylor term already exceeds 2^128 and a wrapped blob gas price is returned silently' % what, f.where(b.i, s.ln))
     rep.floor('fake_exponential-arithmetic-sites', n, 4)
+
+
+def check_env_setter(fx, rep):
+    """R6: BlockEnv::set_blob_excess_gas_and_price stores, on every path, the pair computed from BOTH
+    of its arguments (the price depends on the excess and on the fork's update fraction); a path that
+    returns without storing keeps a price computed for another fork or excess."""
+    from symx import Symx, Budget, render
+    f = fx.fns.get('revm_primitives::env::BlockEnv::set_blob_excess_gas_and_price')
+    if f is None:
+        rep.undecided('R6-env-setter', 'set_blob_excess_gas_and_price', 'not found')
+        return
+    rep.fn(f)
+    try:
+        rs = Symx(fx, max_paths=200).run(f)
+    except Budget:
+        rep.undecided('R6-env-setter', 'set_blob_excess_gas_and_price', 'path budget', f.where())
+        return
+    bad = None
+    for r in rs:
+        st = {''.join(p): render(v).replace(' ', '') for (root, p), v in r.stores.items() if root == ('arg', 1)}
+        v = st.get('.blob_excess_gas_and_price')
+        if v is None:
+            bad = 'a path returns without storing a new excess / price pair (guards: %s)' % [render(l[0])[:50] for l in r.lits]
+        elif v != 'Option::Some{0:new(arg2,arg3)}':
+            bad = 'stores %s, expected Some(BlobExcessGasAndPrice::new(excess_blob_gas, is_prague))' % v[:80]
+    if bad or not rs:
+        rep.violation('R6-env-setter', 'set_blob_excess_gas_and_price', 'BlockEnv::set_blob_excess_gas_and_price: %s' % (bad or 'no path'), f.where())
+    else:
+        rep.ok('R6-env-setter', 'set_blob_excess_gas_and_price', 'always Some(new(excess, is_prague))')
